@@ -65,7 +65,7 @@ def check(ctx):
                    "each source parameter ident is mapped to its own position among the SOURCE arguments (enumerate, order-preserving)", "mapping construction changed: " + t[-400:])
     # replacer
     expect_fn(ctx, "C07.7", "replacer", "substitutes::replace_path_params_recursively",
-              "for(P0.segments){early{!let PathArguments::AngleBracketed($)=elem(P0.segments).arguments=>continue}for(elem(P0.segments).arguments@PathArguments::AngleBracketed.0.args){early{!let GenericArgument::Type($)=elem(elem(P0.segments).arguments@PathArguments::AngleBracketed.0.args)=>continue;!let Type::Path($)=mut[elem(elem(P0.segments).arguments@PathArguments::AngleBracketed.0.args)@GenericArgument::Type.0;=TypePath::to_syn_type(Iterator::find(P1,|1|{(substitutes::get_ident_from_type_path(<self>@Type::Path.0)@v1::Some.0==C1_0.0)})@v1::Some.0.1,P2.alloc_crate_path) if for(P0.segments)&&for(elem(P0.segments).arguments@PathArguments::AngleBracketed.0.args)&&let v1::Some($)=substitutes::get_ident_from_type_path(<self>@Type::Path.0)&&let v1::Some((_,$))=Iterator::find(P1,|1|{(substitutes::get_ident_from_type_path(<self>@Type::Path.0)@v1::Some.0==C1_0.0)})]=>continue}{if(let v1::Some($)=substitutes::get_ident_from_type_path(<self>@Type::Path.0)){early{let v1::Some((_,$))=Iterator::find(P1,|1|{(substitutes::get_ident_from_type_path(<self>@Type::Path.0)@v1::Some.0==C1_0.0)})=>continue}'()'}else{'()'};substitutes::replace_path_params_recursively(<self>@Type::Path.0.path,P1,P2)}}}",
+              "for(P0.segments){early{!let PathArguments::AngleBracketed($)=elem(P0.segments).arguments=>continue}for(elem(P0.segments).arguments@PathArguments::AngleBracketed.0.args){early{!let GenericArgument::Type($)=elem(elem(P0.segments).arguments@PathArguments::AngleBracketed.0.args)=>continue;!let Type::Path($)=mut[elem(elem(P0.segments).arguments@PathArguments::AngleBracketed.0.args)@GenericArgument::Type.0;=TypePath::to_syn_type(Iterator::find(P1,|1|{(substitutes::get_ident_from_type_path(<self>@Type::Path.0)@v1::Some.0==C1_0.0)})@v1::Some.0.1," + ANY + ") if for(P0.segments)&&for(elem(P0.segments).arguments@PathArguments::AngleBracketed.0.args)&&let v1::Some($)=substitutes::get_ident_from_type_path(<self>@Type::Path.0)&&let v1::Some((_,$))=Iterator::find(P1,|1|{(substitutes::get_ident_from_type_path(<self>@Type::Path.0)@v1::Some.0==C1_0.0)})]=>continue}{if(let v1::Some($)=substitutes::get_ident_from_type_path(<self>@Type::Path.0)){early{let v1::Some((_,$))=Iterator::find(P1,|1|{(substitutes::get_ident_from_type_path(<self>@Type::Path.0)@v1::Some.0==C1_0.0)})=>continue}'()'}else{'()'};substitutes::replace_path_params_recursively(<self>@Type::Path.0.path,P1,P2)}}}",
               "all segments and all angle-bracketed type-path arguments are visited; an argument that is exactly a mapped ident is replaced by the resolved type (only write); "
               "everything else is searched recursively", "scale_typegen")
     expect_fn(ctx, "C07.7", "replacer/ident-shape", "substitutes::get_ident_from_type_path",
